@@ -55,7 +55,10 @@ Checks(r) ==
 
 \* how the real answer compares with the expected class (counted, not judged)
 Class(r) ==
-    LET e == IF r.changed \/ r.c.log = "M" THEN r.c.expect ELSE "same" IN
+    LET e == IF ~(r.changed \/ r.c.log = "M") THEN "same"
+             \* behind the permanent cache, a tampered tile the client never asked the server for is not read
+             ELSE IF r.transport = "httpcache" /\ r.hits = 0 /\ r.c.obj \in {"h", "d", "sub"} THEN "same"
+             ELSE r.c.expect IN
     IF e = "fail" /\ CompleteR(r) THEN "laxer_than_reference"
     ELSE IF e = "same" /\ ~SameAsBase(r) THEN "differs_from_untampered"
     ELSE IF e = "fail" THEN "agree_fail"
